@@ -191,7 +191,7 @@ impl Check for C19 {
         "fault_enumeration"
     }
     fn rule(&self) -> String {
-        "case = one generated directory tree (nested directories, names with spaces / non-ASCII / dots, non-note files, an empty directory, a big note, an already-normalised note) processed by the built `iwe normalize` binary under strace; fault-free run: every *.md holds exactly the in-memory export at the path it was read from, nothing else created / deleted / modified, no write-mode open outside the notes; faulted runs enumerate EVERY file-system syscall the main thread makes from its first write-mode open on (openat, write, close, rename, and whatever else the write path uses: copy_file_range, sendfile, fsync, unlink ...; strace counts per tracee): SIGKILL on entry to each, ENOSPC on each data-moving one, and RLIMIT_FSIZE budgets; a hard link to a note (a backup made with ln) must keep its old content; after each, every note file must hold its complete old or complete new text; distinct = (fault kind, k) crash points".into()
+        "case = one generated directory tree (nested and dotted directories, names with spaces / non-ASCII / dots, non-note files, an empty directory, a big note with a hard-linked backup, an already-normalised note, a note without a final newline, a CRLF note) processed by the built `iwe normalize` binary under strace; fault-free run: every *.md holds exactly the in-memory export at the path it was read from, nothing else created / deleted / modified, no write-mode open outside the notes; faulted runs enumerate EVERY file-system syscall the main thread makes from its first write-mode open on (openat, write, close, rename, and whatever else the write path uses: copy_file_range, sendfile, fsync, unlink ...; strace counts per tracee): SIGKILL on entry to each, ENOSPC on each data-moving one, and RLIMIT_FSIZE budgets; a hard link to a note (a backup made with ln) must keep its old content; after each, every note file must hold its complete old or complete new text; distinct = (fault kind, k) crash points".into()
     }
     fn assumptions(&self) -> Vec<String> {
         vec![
